@@ -91,9 +91,15 @@ example : handleAndStart ⟨b64decode, fun _ => true, fun _ => none, b!"default"
 open Dtail.Go Dtail.Gen.MaprQuery in
 /-- **no query text crashes the server in the parser**: the `NewQuery` of the working tree (translated with every index
     and slice expression guarded) returns a query or an error for every byte string a client can put behind `map` -/
-theorem C10_generated_query_parser_never_panics (ext : Ext) (q : Bytes) (hf : (Gen.MaprQuery.tokenize ext q).length < ext.fuel) :
+theorem C10_generated_query_parser_never_panics (ext : Ext) (q : Bytes) (hf : q.length + 1 < ext.fuel) :
     ∃ r, Gen.MaprQuery.NewQuery ext q = Outcome.ok r :=
-  GenQuery.NewQuery_ok ext q hf
+  GenQuery.NewQuery_ok_text ext q hf
+
+open Dtail.Go Dtail.Gen.MaprQuery in
+/-- a query text has at most its length plus one tokens (`tokenize` as translated: split at '"', commas to blanks,
+    `strings.Fields`) — which is why fuel beyond the length of the text is fuel beyond the number of tokens -/
+theorem C10_generated_token_count (ext : Ext) (q : Bytes) : (Gen.MaprQuery.tokenize ext q).length ≤ q.length + 1 :=
+  GenQuery.tokenize_length ext q
 
 /-! ### Tie G (panic-aware): the command decoder as translated from the working tree on this run -/
 
